@@ -43,6 +43,9 @@ type Case struct {
 	Log   bool   `json:"log,omitempty"`   // DetPD: determinant.LogScale{true}
 	Reuse bool   `json:"reuse,omitempty"` // the call and its history share ONE InSitu struct
 	Pre   []Case `json:"pre,omitempty"`   // history: calls executed before this one in the same process
+	// round 6
+	View map[string]VW `json:"view,omitempty"` // operands / in-situ buffers that are views of a larger workspace (views.go)
+	Scale int          `json:"scale,omitempty"` // generator note: the entries were scaled by 2^Scale (determinant out of the float range)
 }
 
 type Result struct {
@@ -50,6 +53,7 @@ type Result struct {
 	A, X [][]float64
 	B    []float64
 	V    float64
+	WS   []WSDump // view cases: every workspace before / after the call
 }
 
 // ---------------------------------------------------------------- helpers
@@ -149,6 +153,17 @@ func dirty(n int) [][]float64 {
 // ---------------------------------------------------------------- running the implementation
 
 func execOne(c Case, ses *session) (res Result) {
+	ws := newWsSet(c.et())
+	defer func() { // runs AFTER the recover below: the workspaces are dumped on every outcome
+		if len(ws.recs) > 0 {
+			defer func() {
+				if r := recover(); r != nil {
+					res = Result{Kind: "other:panic-while-reading-a-view:" + fmt.Sprint(r)}
+				}
+			}()
+			res.WS = ws.after()
+		}
+	}()
 	defer func() {
 		if r := recover(); r != nil {
 			res = Result{Kind: classifyPanic(r)}
@@ -158,7 +173,8 @@ func execOne(c Case, ses *session) (res Result) {
 	in := effective(c) // the inputs as the element type holds them
 	switch c.Kind {
 	case "GJ":
-		a, x, b := newMatT(et, c.A, n), newMatT(et, c.X, n), newVecT(et, c.B)
+		a, x, b := ws.operand(c, "a", c.A), ws.operand(c, "x", c.X), newVecT(et, c.B)
+		ws.before()
 		args := []interface{}{}
 		if !c.MskNil {
 			args = append(args, gaussJordan.Submatrix{append([]bool{}, c.Msk...)})
@@ -171,7 +187,7 @@ func execOne(c Case, ses *session) (res Result) {
 		}
 		return Result{Kind: "ok", A: rowsOf(a), X: rowsOf(x), B: vecOf(b)}
 	case "Inv":
-		m := newMatT(et, c.A, n)
+		m := ws.operand(c, "m", c.A)
 		args := []interface{}{}
 		if !c.MskNil {
 			args = append(args, gaussJordan.Submatrix{append([]bool{}, c.Msk...)})
@@ -184,8 +200,16 @@ func execOne(c Case, ses *session) (res Result) {
 		}
 		if c.InSitu || c.Reuse {
 			// caller-supplied buffers holding stale content (or the results of the history)
-			args = append(args, ses.invBufs(c))
+			is := ses.invBufs(c)
+			if _, ok := c.View["bufa"]; ok {
+				is.A = ws.operand(c, "bufa", dirty(n))
+			}
+			if _, ok := c.View["bufid"]; ok {
+				is.Id = ws.operand(c, "bufid", dirty(n))
+			}
+			args = append(args, is)
 		}
+		ws.before()
 		r, err := matrixInverse.Run(m, args...)
 		if err != nil {
 			return Result{Kind: classifyErr(err)}
@@ -196,7 +220,7 @@ func execOne(c Case, ses *session) (res Result) {
 		}
 		return Result{Kind: "ok", X: rowsOf(r)}
 	case "BS":
-		a := newMatT(et, c.A, n)
+		a := ws.operand(c, "m", c.A)
 		var b ad.Vector
 		if c.HasB {
 			b = newVecT(et, c.B)
@@ -204,8 +228,14 @@ func execOne(c Case, ses *session) (res Result) {
 		var x ad.Vector
 		var err error
 		if c.InSituA || c.InSitu || c.Reuse {
-			x, err = backSubstitution.Run(a, b, ses.bsBufs(c))
+			is := ses.bsBufs(c)
+			if _, ok := c.View["bufa"]; ok {
+				is.A = ws.operand(c, "bufa", dirty(n))
+			}
+			ws.before()
+			x, err = backSubstitution.Run(a, b, is)
 		} else {
+			ws.before()
 			x, err = backSubstitution.Run(a, b)
 		}
 		if err != nil {
@@ -216,7 +246,9 @@ func execOne(c Case, ses *session) (res Result) {
 		}
 		return Result{Kind: "ok", B: vecOf(x)}
 	case "Det":
-		r, err := determinant.Run(newMatT(et, c.A, n))
+		dm := ws.operand(c, "m", c.A)
+		ws.before()
+		r, err := determinant.Run(dm)
 		if err != nil {
 			return Result{Kind: classifyErr(err)}
 		}
@@ -229,7 +261,9 @@ func execOne(c Case, ses *session) (res Result) {
 		if c.InSitu || c.Reuse {
 			args = append(args, ses.detBufs(c))
 		}
-		r, err := determinant.Run(newMatT(et, c.A, n), args...)
+		dm := ws.operand(c, "m", c.A)
+		ws.before()
+		r, err := determinant.Run(dm, args...)
 		if err != nil {
 			return Result{Kind: classifyErr(err)}
 		}
@@ -460,6 +494,39 @@ func coqCasesTyped(c Case, r Result, w *CaseWriter) []string {
 		out = append(out, fmt.Sprintf("KTDet %d %d %s %s", et, n, fm(c.A), F(r.V)))
 	case "DetPD":
 		out = append(out, fmt.Sprintf("KTDetPD %d %s %d %s %s %s", et, B(c.Log), n, fm(c.A), logTable(c), outcome(r.Kind, F(r.V))))
+	}
+	// gaussJordan.Run on two views of two workspaces: the element-level view model, whole workspaces
+	if c.Kind == "GJ" && len(r.WS) == 2 && len(r.WS[0].Views) == 1 && len(r.WS[1].Views) == 1 &&
+		r.WS[0].Views[0].Name == "a" && r.WS[1].Views[0].Name == "x" && r.WS[0].Before != nil {
+		wa, wx := r.WS[0], r.WS[1]
+		out = append(out, fmt.Sprintf("KVGJ %d %s %d %s %d %d %s %s %d %d %s %s %s %s", et, B(c.UT), n, bl(c.Msk),
+			wa.R, wa.C, opsCoq(wa.Views[0].Ops), FList(wa.Before), wx.R, wx.C, opsCoq(wx.Views[0].Ops), FList(wx.Before), FList(in.B),
+			outcome(r.Kind, "("+FList(wa.After)+", "+FList(wx.After)+", "+FList(r.B)+")")))
+		w.Count("view:gauss-jordan-element-level-model")
+	}
+	// matrixInverse.Run (plain / upper triangular) with InSitu.A and InSitu.Id views of two workspaces: m_inverse_v
+	if c.Kind == "Inv" && c.Mode != 2 && !c.Reuse && (r.Kind == "ok" || r.Kind == "errsingular") {
+		var wA, wI *WSDump
+		for k := range r.WS {
+			d := &r.WS[k]
+			if len(d.Views) == 1 && d.Views[0].Name == "bufa" {
+				wA = d
+			}
+			if len(d.Views) == 1 && d.Views[0].Name == "bufid" {
+				wI = d
+			}
+		}
+		if wA != nil && wI != nil && wA.Before != nil {
+			out = append(out, fmt.Sprintf("KVInv %d %s %d %s %s %d %d %s %s %d %d %s %s %s %s", et, B(c.Mode == 1), n, B(c.MskNil), bl(c.Msk),
+				wA.R, wA.C, opsCoq(wA.Views[0].Ops), FList(wA.Before), wI.R, wI.C, opsCoq(wI.Views[0].Ops), FList(wI.Before), fm(c.A),
+				outcome(r.Kind, "("+FList(wA.After)+", "+FList(wI.After)+")")))
+			w.Count("view:matrix-inverse-view-buffers-model")
+		}
+	}
+	// view cases: every workspace, whole, before and after
+	for _, d := range r.WS {
+		out = append(out, wsCoq(d))
+		w.Count("workspace:compared")
 	}
 	return out
 }
@@ -782,6 +849,19 @@ func permStream(tier string) []Case {
 }
 
 func nontrivial(c Case, r Result) bool {
+	if c.View != nil {
+		// a view case is non-trivial iff the routine returned a result and some operand's view has a non-zero
+		// row AND column offset in its workspace
+		if r.Kind != "ok" {
+			return false
+		}
+		for _, v := range c.View {
+			if offsetsNonZero(v.Ops) {
+				return true
+			}
+		}
+		return false
+	}
 	if c.ET != "" {
 		// a typed case is non-trivial iff it has a history containing a call of ANOTHER element type
 		// (or a shared InSitu struct) and the routine returned a result
@@ -820,7 +900,7 @@ func nontrivial(c Case, r Result) bool {
 	return true
 }
 
-const header = "From Coq Require Import List Bool ZArith QArith Floats. Import ListNotations.\nFrom ADV Require Import C04.Model C04.Corr.\nLocal Open Scope nat_scope.\n"
+const header = "From Coq Require Import List Bool ZArith QArith Floats. Import ListNotations.\nFrom ADV Require Import C04.Model C04.ModelV C04.Corr.\nLocal Open Scope nat_scope.\n"
 
 func addCase(w *CaseWriter, c Case) {
 	r := execCase(c)
@@ -834,6 +914,25 @@ func addCase(w *CaseWriter, c Case) {
 	w.Count("input:" + c.Tag)
 	w.Count(fmt.Sprintf("n:%d", c.N))
 	w.Count("elementtype:" + c.et())
+	for _, name := range viewNames(c) {
+		v := c.View[name]
+		shape := ""
+		for _, o := range v.Ops {
+			if o.T {
+				shape += "T"
+			} else {
+				shape += "S"
+			}
+		}
+		w.Count("view-operand:" + name)
+		w.Count("view-shape:" + shape)
+		if v.Share != "" {
+			w.Count("view:two-views-of-one-workspace")
+		}
+	}
+	if c.Scale != 0 {
+		w.Count("determinant:outside-float-range-scale")
+	}
 	if c.ET != "" {
 		w.Count(fmt.Sprintf("history-length:%d", len(c.Pre)))
 		if c.Reuse {
@@ -923,7 +1022,7 @@ func main() {
 	}
 	w := NewCaseWriter(o.Out, "cases", header, "mism", 24)
 	w.Type = "kase"
-	w.Rule = "gaussJordan.Run / matrixInverse.Run (plain, UpperTriangular, PositiveDefinite; Submatrix masks; caller-supplied dirty InSitu buffers) / backSubstitution.Run / determinant.Run (naive, PositiveDefinite) / Permute* on DenseFloat64 and DenseReal64 containers, n = 1..8; plus HISTORIES (typed cases): sequences of 4-5 calls in one process over Float32/Float64/Real32/Real64 containers (Float32 -> Float64 -> Real64 -> Float32 ... with one routine and one size; mixed routines; one InSitu struct shared by all calls), random entries not representable in binary32, every call compared with the model as if it were the first; a typed case is non-trivial iff its history contains a call of another element type or shares the InSitu struct; inputs: integer-valued, entries -3..3, upper triangular, SPD, 50% zeros, dyadic, random floats, structurally singular (zero row/column, identical rows, dependent rows), EVERY row permutation of fixed matrices n <= 5; a replay case is non-trivial iff n >= 3, the routine returned a result and (for the pivoting routines) the first selected column needs a row interchange; residual cases (KRes/KResV) are counted separately"
+	w.Rule = "gaussJordan.Run / matrixInverse.Run (plain, UpperTriangular, PositiveDefinite; Submatrix masks; caller-supplied dirty InSitu buffers) / backSubstitution.Run / determinant.Run (naive, PositiveDefinite) / Permute* on DenseFloat64 and DenseReal64 containers, n = 1..8; plus HISTORIES (typed cases): sequences of 4-5 calls in one process over Float32/Float64/Real32/Real64 containers (Float32 -> Float64 -> Real64 -> Float32 ... with one routine and one size; mixed routines; one InSitu struct shared by all calls), random entries not representable in binary32, every call compared with the model as if it were the first; a typed case is non-trivial iff its history contains a call of another element type or shares the InSitu struct; inputs: integer-valued, entries -3..3, upper triangular, SPD, 50% zeros, dyadic, random floats, structurally singular (zero row/column, identical rows, dependent rows), EVERY row permutation of fixed matrices n <= 5; a replay case is non-trivial iff n >= 3, the routine returned a result and (for the pivoting routines) the first selected column needs a row interchange; residual cases (KRes/KResV) are counted separately; round 6: VIEW cases (input:view) - operands a, x of gaussJordan.Run, the matrix argument and InSitu.A / InSitu.Id of matrixInverse.Run (all modes), A and InSitu.A of backSubstitution.Run, the argument of determinant.Run are views of larger workspaces (chains of Slice with row AND column offsets / T / Slice of Slice, two disjoint views of ONE workspace), all four element types, n = 2..5, matrices whose partial pivoting interchanges rows in nearly every column; per case the logical result is compared with the model as usual, every workspace is compared WHOLE (KVW: after = vstore before view result, Slice / T / index from C10.Gen) and gaussJordan on two views with the element-level view model (KVGJ); a view case is non-trivial iff the routine returned a result and some view has a non-zero row and column offset; SCALED determinants (input:scaled-det): SPD matrices times 2^s with |log2 det| beyond the range of the element type (product form), beyond TWICE the range (LogScale: the product of the Cholesky diagonal overflows / underflows), and large but in range (both forms, cofactor expansion)"
 	for _, c := range readCorpus(o.Extra) {
 		c.Tag = "corpus:" + c.Tag
 		addCase(w, c)
@@ -960,6 +1059,14 @@ func main() {
 		for _, c := range seq {
 			addCase(w, c)
 		}
+	}
+	// round 6: operands and caller-supplied in-situ buffers that are views of a larger workspace (all element
+	// types, all routines, matrices that force row interchanges); determinants far outside the float range
+	for _, c := range viewStream(NewRng(o.Seed+611953), o.N/3) {
+		addCase(w, c)
+	}
+	for _, c := range scaledDetStream(NewRng(o.Seed+224737), o.N/6) {
+		addCase(w, c)
 	}
 	if err := w.Flush(); err != nil {
 		Die("%v", err)
